@@ -122,7 +122,7 @@ def ctor_targets(tier, update_fns):
     """update_fns(cxx) -> [histogram_update Fn, update_op Fn]: the callee whose contract replaces the call"""
     out = []
     for tag, cxx, cty in ELEMS:
-        if tag == 'i8' and tier != 'thorough':       # byte-sized elements cost CBMC 3-5x more
+        if tag in ('i8', 'i16') and tier != 'thorough':       # (byte-sized elements cost CBMC 3-5x more)
             continue
         out.append(Target(f'ctor_{tag}', (lambda tag=tag, cxx=cxx: [ctor_fn(tag, cxx)] + update_fns(cxx)), 'specs/C20/ctor.h', enforce='hist_ctor',
                           replace=['histogram_update'], defines=elem_defines(tag, cty)))
